@@ -269,7 +269,9 @@ class Environment:
                 until = Event(self)
                 until._ok = True
                 until._value = None
-                self.schedule(until, URGENT, at - self.now)
+                # Put the stop at exactly `at`: now + (at - now) can differ from
+                # `at` by a rounding error, and run() would return with now != at.
+                heappush(self._queue, (at, URGENT, next(self._eid), until))
 
             elif until.callbacks is None:
                 # Until event has already been processed.
